@@ -107,6 +107,7 @@ def keeps_current_when_unset(A, s, fname):
 
 def run(ctx, rep):
     prog = ctx.prog
+    wiring_rule(ctx, rep, "C18")
     A = prog.find1(r"^rustic_core::commands::config::ConfigOptions::apply$")
     rep.rule("C18.b", "every store to config.F in ConfigOptions::apply is control-dependent on self.set_F being Some")
     rep.rule("C18.c", "refusal tests dominate the stores they protect")
